@@ -112,3 +112,22 @@ Example events_example :
 Proof. reflexivity. Qed.
 Example events_compat : compat Z (state Z) exMs Euler exX [exX] [exX].
 Proof. intros j Hj. assert (j = 0)%nat by (simpl in Hj; lia). subst. split; reflexivity. Qed.
+
+(* sub-models with their own instructions: a strict one (reshape to the reference shape) FIRST, a
+   default one second - the round trip works because each is handed exactly its slice ... *)
+Definition exMs2 := [strict_codec Z; default_codec Z].
+Definition exX3 : list (state Z) := [[Arr [1; 2; 3; 4; 5; 6]%Z]; [Sc 7%Z; Arr [8; 9]%Z]].
+Example coupler_custom_first :
+  cunflatten Z (state Z) exMs2 [6; 3]%nat [1; 2; 3; 4; 5; 6; 7; 8; 9]%Z exX3 = Some exX3 /\
+  cunflatten_args Z (state Z) exMs2 [6; 3]%nat [1; 2; 3; 4; 5; 6; 7; 8; 9]%Z exX3 = [[1; 2; 3; 4; 5; 6]; [7; 8; 9]]%Z.
+Proof. split; reflexivity. Qed.
+(* ... handing it the rest of the array instead would fail (strict) or change the shape (greedy) *)
+Example strict_needs_upper_bound :
+  unfl Z (state Z) (strict_codec Z) [1; 2; 3; 4; 5; 6; 7; 8; 9]%Z [Arr [1; 2; 3; 4; 5; 6]%Z] = None.
+Proof. reflexivity. Qed.
+Example greedy_needs_upper_bound :
+  option_map (signature Z) (unfl Z (state Z) (greedy_codec Z 3) [1; 2; 3; 4; 5; 6; 7; 8; 9]%Z [Arr [1; 2; 3; 4; 5; 6]%Z])
+  = Some [Some 9%nat] /\
+  option_map (signature Z) (unfl Z (state Z) (greedy_codec Z 3) [1; 2; 3; 4; 5; 6]%Z [Arr [1; 2; 3; 4; 5; 6]%Z])
+  = Some [Some 6%nat].
+Proof. split; reflexivity. Qed.
